@@ -205,3 +205,40 @@ pub fn run(c: &Compiled, fname: &str, cells: &[BigInt]) -> Obs {
         Err(e) => Obs::Error(format!("runner panicked: {e} at {}", vcommon::last_panic_location())),
     }
 }
+
+/// Ad-hoc probe (`h01 <file.cairo> x probe`): compiles one file with optimisations disabled and gas on,
+/// under the four combinations of the two metadata solver switches, and says what happens.
+pub fn probe(path: &Path) {
+    for opt in [OptKind::Disabled, OptKind::Default] {
+        for (lg, la) in [(true, true), (false, true), (true, false), (false, false)] {
+            let cfg = Config { opt: opt.clone(), skip_const_folding: false, match_threshold: None, gas: Some(Solver::Linear) };
+            let mut db = build_db(&cfg);
+            let inputs = setup_project(&mut db, path).expect("setup_project");
+            let db = &db;
+            let crate_ids = CrateInput::into_crate_ids(db, inputs);
+            let prog = db.get_sierra_program(crate_ids).to_option().map(|p| p.clone()).expect("sierra");
+            let replacer = DebugReplacer { db };
+            let mut sierra = prog.program.clone();
+            replacer.enrich_function_names(&mut sierra);
+            let sierra = replacer.apply(&sierra);
+            let meta = MetadataComputationConfig {
+                linear_gas_solver: lg,
+                linear_ap_change_solver: la,
+                skip_non_linear_solver_comparisons: true,
+                ..Default::default()
+            };
+            let r = vcommon::catch(std::panic::AssertUnwindSafe(|| {
+                SierraCasmRunner::new(sierra.clone(), Some(meta), Default::default(), None).map(|_| ())
+            }));
+            println!(
+                "opt={:?} linear_gas_solver={lg} linear_ap_change_solver={la}: {}",
+                opt,
+                match r {
+                    Ok(Ok(())) => "compiles".to_string(),
+                    Ok(Err(e)) => format!("ERROR {e:?}").chars().take(260).collect(),
+                    Err(e) => format!("PANIC {e} at {}", vcommon::last_panic_location()),
+                }
+            );
+        }
+    }
+}
